@@ -198,7 +198,36 @@ func H_C07_streamState() {
 		reach("iterated")
 	})
 	if !cutActive() {
-		return // the state leak is only reachable through the cut; nothing to replay natively
+		// replay without the cut: drive the real loop through a long generation history (400
+		// passing test cases that draw 200 words each) before the first test case that may fail
+		calls := 0
+		inner := prop
+		prop = func(t *T) {
+			calls++
+			for i := 0; i < 200; i++ {
+				_ = t.s.drawBits(64)
+			}
+			if calls <= 400 {
+				_ = SliceOfN(Bool(), 0, 2).Draw(t, "sl")
+				return
+			}
+			inner(t)
+		}
+		orig := prop
+		_, _, _, seed, err := findBug(newVTB("S"), farDeadline(), 2000, seed0, orig)
+		if err == nil {
+			return
+		}
+		first := append([]uint64(nil), got...)
+		calls = 400 // the fresh stream runs the (possibly) failing shape of the property
+		err2 := checkOnce(newT(newVTB("R"), newRandomBitStream(seed, false), false, nil), orig)
+		vassert(err2 != nil && !err2.isInvalidData(), "C07: the reported seed does not reproduce the failure on a fresh stream")
+		same := len(got) == len(first)
+		for i := 0; same && i < len(got); i++ {
+			same = got[i] == first[i]
+		}
+		vassert(same, "C07: a test case depends on state carried over from earlier test cases (a fresh stream with the reported seed gives different draws)")
+		return
 	}
 	_, _, _, seed, err := findBug(newVTB("S"), farDeadline(), 1000, seed0, prop)
 	if err == nil {
